@@ -191,6 +191,81 @@ theorem filterMap_dec (log : List LogEntry) :
     simp only [List.map_cons, List.filterMap_cons, entKV, decEntry_encEntry]
     congr 1
 
+theorem entKV_inj {a b : LogEntry} (h : entKV a = entKV b) : a = b := by
+  cases a; cases b
+  simp only [entKV, encEntry, Prod.mk.injEq, List.cons.injEq] at h
+  obtain ⟨h1, _, h2, h3, _⟩ := h
+  subst h1; subst h2; subst h3; rfl
+
+theorem mem_map_entKV {a : LogEntry} {log : List LogEntry} : entKV a ∈ log.map entKV ↔ a ∈ log := by
+  constructor
+  · intro h
+    obtain ⟨b, hb, hbe⟩ := List.mem_map.mp h
+    rw [← entKV_inj hbe]; exact hb
+  · exact List.mem_map_of_mem
+
+/-- writing entry `b+j+1` over a well-numbered log keeps it well numbered -/
+theorem wf_overwrite {b j : Nat} {log : List LogEntry} {e : LogEntry} (h : WFfrom b log)
+    (hj : j ≤ log.length) (he : e.index = b + j + 1) : WFfrom b (log.take j ++ e :: log.drop (j + 1)) := by
+  induction log generalizing b j with
+  | nil =>
+    have : j = 0 := by simpa using hj
+    subst this
+    simp only [List.take_nil, List.drop_nil, List.nil_append, WFfrom]
+    exact ⟨by omega, trivial⟩
+  | cons x r ih =>
+    simp only [WFfrom] at h
+    cases j with
+    | zero =>
+      simp only [List.take_zero, List.nil_append, Nat.zero_add, List.drop_succ_cons, List.drop_zero, WFfrom]
+      exact ⟨by omega, h.2⟩
+    | succ j =>
+      simp only [List.take_succ_cons, List.drop_succ_cons, List.cons_append, WFfrom]
+      exact ⟨h.1, ih h.2 (by simpa using hj) (by omega)⟩
+
+/-- `BTreeMap::insert` of index `b+j+1` into the map of a well-numbered log replaces position `j`
+    (or appends when `j` is the length) -/
+theorem mapInsert_overwrite {b j : Nat} {log : List LogEntry} (h : WFfrom b log) (e : LogEntry)
+    (hj : j ≤ log.length) (he : e.index = b + j + 1) :
+    mapInsert e.index (encEntry e) (log.map entKV) = (log.take j ++ e :: log.drop (j + 1)).map entKV := by
+  induction log generalizing b j with
+  | nil =>
+    have : j = 0 := by simpa using hj
+    subst this
+    simp [mapInsert, entKV]
+  | cons x r ih =>
+    simp only [WFfrom] at h
+    show mapInsert e.index (encEntry e) ((x.index, encEntry x) :: r.map entKV) = _
+    cases j with
+    | zero =>
+      have hx : x.index = e.index := by omega
+      simp [mapInsert, hx, entKV]
+    | succ j =>
+      have h1 : ¬ e.index < x.index := by omega
+      have h2 : ¬ e.index = x.index := by omega
+      simp only [mapInsert, h1, h2, if_false, List.take_succ_cons, List.drop_succ_cons, List.cons_append,
+        List.map_cons]
+      rw [ih h.2 (by simpa using hj) (by omega)]
+      rfl
+
+/-- an entry of another index survives an overwrite of position `j` -/
+theorem mem_overwrite {b j : Nat} {log : List LogEntry} (h : WFfrom b log) {a : LogEntry} (e : LogEntry)
+    (ha : a ∈ log) (hne : a.index ≠ b + j + 1) : a ∈ log.take j ++ e :: log.drop (j + 1) := by
+  induction log generalizing b j with
+  | nil => simp at ha
+  | cons x r ih =>
+    simp only [WFfrom] at h
+    cases j with
+    | zero =>
+      rcases List.mem_cons.mp ha with rfl | hr
+      · omega
+      · simp [hr]
+    | succ j =>
+      simp only [List.take_succ_cons, List.drop_succ_cons, List.cons_append, List.mem_cons]
+      rcases List.mem_cons.mp ha with rfl | hr
+      · exact Or.inl rfl
+      · exact Or.inr (ih h.2 hr (by omega))
+
 theorem restart_sync (id : Nat) (s : RState) (h : Shape s) :
     Sync (restart id s) s ∧ WF (restart id s).log := by
   obtain ⟨log, hwf, hm⟩ := h
@@ -269,23 +344,58 @@ def LoopInv (log : List LogEntry) (s : RState) (g : Ghost) : Prop :=
 
 theorem loopInv_P {log s g} (h : LoopInv log s g) : P s g := ⟨h.2.2, log, h.1, h.2.1⟩
 
+/-- `persist_log_entry` of an entry with index `j+1 ≤ len+1`: position `j` is overwritten (or the
+    entry appended); acknowledged entries it replaces leave the obligations -/
+theorem overwrite_step {log : List LogEntry} {s : RState} {g : Ghost} (h : LoopInv log s g) (e : LogEntry)
+    (j : Nat) (hj : j ≤ log.length) (he : e.index = j + 1) :
+    LoopInv (log.take j ++ e :: log.drop (j + 1)) (applyEntry s (.logEntryFull e.index e.term (encEntry e)))
+      (microG g (.wal (.logEntryFull e.index e.term (encEntry e)))) := by
+  obtain ⟨hwf, hm, h1, h2, h3⟩ := h
+  have hins : mapInsert e.index (encEntry e) s.logMap = (log.take j ++ e :: log.drop (j + 1)).map entKV := by
+    rw [hm]; exact mapInsert_overwrite hwf e hj (by omega)
+  refine ⟨wf_overwrite hwf hj (by omega), ?_, ?_, ?_, ?_⟩
+  · simp only [applyEntry]; exact hins
+  · simpa [applyEntry, microG] using h1
+  · intro v hv; exact applyEntry_voteOk s _ v (h2 v (by simpa [microG] using hv))
+  · intro a ha
+    simp only [microG, List.mem_filter, Bool.or_eq_true, decide_eq_true_eq] at ha
+    have hin := h3 a ha.1
+    rw [hm] at hin
+    have hal : a ∈ log := mem_map_entKV.mp hin
+    simp only [applyEntry, hins]
+    apply mem_map_entKV.mpr
+    by_cases hidx : a.index = e.index
+    · have hae : a = e := by
+        rcases ha.2 with hne | henc
+        · exact absurd hidx hne
+        · exact entKV_inj (by simp only [entKV, hidx, henc])
+      rw [hae]; simp
+    · exact mem_overwrite hwf e hal (by omega)
+
+/-- a record for the next free index releases no obligation -/
+theorem microG_push {log : List LogEntry} {s : RState} {g : Ghost} (h : LoopInv log s g)
+    (i t : Nat) (d : List Nat) (hi : log.length < i) : microG g (.wal (.logEntryFull i t d)) = g := by
+  obtain ⟨hwf, hm, _, _, h3⟩ := h
+  have : g.acked.filter (fun e => decide (e.index ≠ i) || decide (encEntry e = d)) = g.acked := by
+    apply List.filter_eq_self.mpr
+    intro a ha
+    have hin := h3 a ha
+    rw [hm] at hin
+    have := wf_index hwf (mem_map_entKV.mp hin)
+    simp only [Bool.or_eq_true, decide_eq_true_eq]
+    exact Or.inl (by omega)
+  simp only [microG, this]
+
 /-- appending entry `len+1` -/
 theorem push_step {log : List LogEntry} {s : RState} {g : Ghost} (h : LoopInv log s g) (e : LogEntry)
     (he : e.index = log.length + 1) :
     LoopInv (log ++ [e]) (applyEntry s (.logEntryFull e.index e.term (encEntry e))) g := by
-  obtain ⟨hwf, hm, h1, h2, h3⟩ := h
-  have hins : mapInsert e.index (encEntry e) s.logMap = (log ++ [e]).map entKV := by
-    rw [hm]; exact mapInsert_append hwf e (by omega)
-  refine ⟨wf_append hwf (by omega), ?_, ?_, ?_, ?_⟩
-  · simp only [applyEntry]; exact hins
-  · simpa [applyEntry] using h1
-  · intro v hv; exact applyEntry_voteOk s _ v (h2 v hv)
-  · intro a ha
-    have := h3 a ha
-    simp only [applyEntry, hins]
-    rw [hm] at this
-    simp only [List.map_append, List.mem_append]
-    exact Or.inl this
+  have := overwrite_step h e log.length (Nat.le_refl _) he
+  rw [microG_push h _ _ _ (by omega)] at this
+  have e1 : log.take log.length = log := List.take_length
+  have e2 : log.drop (log.length + 1) = [] := List.drop_eq_nil_of_le (by omega)
+  rw [e1, e2] at this
+  exact this
 
 /-- the conflict truncation record -/
 theorem truncate_step {log : List LogEntry} {s : RState} {g : Ghost} (h : LoopInv log s g) (f : Nat) :
@@ -303,7 +413,6 @@ theorem truncate_step {log : List LogEntry} {s : RState} {g : Ghost} (h : LoopIn
     simp only [applyEntry, mapRemoveFrom, List.mem_filter, decide_eq_true_eq]
     exact ⟨hin, by simpa [entKV] using ha.2⟩
 
-theorem microG_full (g : Ghost) (i t : Nat) (d : List Nat) : microG g (.wal (.logEntryFull i t d)) = g := rfl
 theorem microG_tv (g : Ghost) (t : Nat) (v : Option Nat) : microG g (.wal (.termAndVote t v)) = g := rfl
 
 /-- result of one loop iteration: a chain of satisfied states and the invariant at the end -/
@@ -320,10 +429,11 @@ theorem appendOne_ok {log : List LogEntry} {s : RState} {g : Ghost} (h : LoopInv
   by_cases hgt : e.index > log.length
   · simp only [hgt, if_true]
     have hp := push_step h e (by omega)
+    have hg := microG_push h e.index e.term (encEntry e) (by omega)
     refine ⟨⟨?_, ?_, ?_, ?_⟩, by simp; omega⟩
-    · simp only [List.map_cons, List.map_nil, Chain, microS, microG_full]
+    · simp only [List.map_cons, List.map_nil, Chain, microS, hg]
       exact ⟨loopInv_P h, loopInv_P hp⟩
-    · simpa [microAllS, microAllG, microS, microG_full] using hp
+    · simpa [microAllS, microAllG, microS, hg] using hp
     · simp [microAllS, microS, applyEntry]
     · simp [microAllS, microS, applyEntry]
   · simp only [hgt, if_false]
@@ -343,10 +453,11 @@ theorem appendOne_ok {log : List LogEntry} {s : RState} {g : Ghost} (h : LoopInv
           have hlen : (log.take (e.index - 1)).length = e.index - 1 := by
             simp only [List.length_take]; omega
           have hp := push_step ht e (by omega)
+          have hg := microG_push ht e.index e.term (encEntry e) (by omega)
           refine ⟨⟨?_, ?_, ?_, ?_⟩, by simp [hlen]; omega⟩
-          · simp only [List.map_cons, List.map_nil, Chain, microS, microG_full]
+          · simp only [List.map_cons, List.map_nil, Chain, microS, hg]
             exact ⟨loopInv_P h, loopInv_P ht, loopInv_P hp⟩
-          · simpa [microAllS, microAllG, microS, microG_full] using hp
+          · simpa [microAllS, microAllG, microS, hg] using hp
           · simp [microAllS, microS, applyEntry]
           · simp [microAllS, microS, applyEntry]
         · rw [if_neg hc]; exact ⟨trivialOut, by dsimp only; omega⟩
@@ -373,6 +484,59 @@ theorem appendLoop_ok {log : List LogEntry} {s : RState} {g : Ghost} (h : LoopIn
     · have := o2.vote; rw [o1.vote] at this
       simpa [microAllS, List.foldl_append] using this
 
+/-- the log after writing the entries `es` over it one by one (the `for entry in &entries
+    { persist_log_entry }` loop of `install_snapshot_entries`, seen from the recovered map) -/
+def overwriteAll (log : List LogEntry) : List LogEntry → List LogEntry
+  | [] => log
+  | e :: es => overwriteAll (log.take (e.index - 1) ++ e :: log.drop e.index) es
+
+theorem snapLoop_ok {log : List LogEntry} {s : RState} {g : Ghost} (h : LoopInv log s g)
+    (es : List LogEntry) (b : Nat) (hes : WFfrom b es) (hb : b ≤ log.length) :
+    LoopOut s g (es.map fun e => WalEntry.logEntryFull e.index e.term (encEntry e)) (overwriteAll log es)
+    ∧ (overwriteAll log es).take (b + es.length) = log.take b ++ es := by
+  induction es generalizing log s g b with
+  | nil =>
+    exact ⟨⟨by simpa [Chain] using loopInv_P h, by simpa [overwriteAll, microAllS, microAllG] using h,
+            by simp [microAllS], by simp [microAllS]⟩, by simp [overwriteAll]⟩
+  | cons e es ih =>
+    simp only [WFfrom] at hes
+    have o1 := overwrite_step h e b hb hes.1
+    have hL : overwriteAll log (e :: es) = overwriteAll (log.take b ++ e :: log.drop (b + 1)) es := by
+      simp only [overwriteAll, hes.1, Nat.add_sub_cancel]
+    have hlen : b + 1 ≤ (log.take b ++ e :: log.drop (b + 1)).length := by
+      simp only [List.length_append, List.length_take, List.length_cons, List.length_drop]; omega
+    obtain ⟨o2, htk⟩ := ih o1 (b + 1) hes.2 hlen
+    rw [hL]
+    refine ⟨⟨?_, ?_, ?_, ?_⟩, ?_⟩
+    · simp only [List.map_cons, Chain]; exact ⟨loopInv_P h, o2.chain⟩
+    · simp only [List.map_cons, microAllS, microAllG, List.foldl_cons]; exact o2.inv
+    · have := o2.term
+      simpa [microAllS, microS, applyEntry] using this
+    · have := o2.vote
+      simpa [microAllS, microS, applyEntry] using this
+    · have e1 : b + (e :: es).length = b + 1 + es.length := by simp only [List.length_cons]; omega
+      have e2 : (log.take b ++ e :: log.drop (b + 1)).take (b + 1) = log.take b ++ [e] := by
+        have hl : (log.take b).length = b := by simp only [List.length_take]; omega
+        have h3 : (log.take b).take (b + 1) = log.take b := List.take_of_length_le (by omega)
+        rw [List.take_append, hl, h3]
+        simp
+      rw [e1, htk, e2]; simp
+
+theorem wf_getLast {b : Nat} {es : List LogEntry} (h : WFfrom b es) {l : LogEntry}
+    (hl : es.getLast? = some l) : l.index = b + es.length := by
+  induction es generalizing b with
+  | nil => simp at hl
+  | cons x r ih =>
+    simp only [WFfrom] at h
+    cases r with
+    | nil =>
+      simp only [List.getLast?_singleton, Option.some.injEq] at hl
+      subst hl; simp only [List.length_cons, List.length_nil]; omega
+    | cons y r' =>
+      rw [List.getLast?_cons_cons] at hl
+      have := ih h.2 hl
+      simp only [List.length_cons] at this ⊢; omega
+
 theorem mkEntries_wf (b : Nat) (ents : List (Nat × Nat)) : WFfrom b (mkEntries b ents) := by
   induction ents generalizing b with
   | nil => simp [mkEntries, WFfrom]
@@ -389,13 +553,9 @@ theorem logOk_bound {log : List LogEntry} {pi pt : Nat} (h : logOk log pi pt = t
 
 end Neumann.RaftWal
 
-/-! Part 4: every handler (except snapshot install) keeps memory and log in step and the
-    obligations satisfied after each of its micro steps. -/
+/-! Part 4: every handler keeps memory and log in step and the obligations satisfied after each
+    of its micro steps. -/
 namespace Neumann.RaftWal
-
-def NoSnap : Event → Prop
-  | .installSnapshot _ _ _ => False
-  | _ => True
 
 structure StepOk (s : RState) (g : Ghost) (o : StepOut) : Prop where
   chain : Chain s g o.micros
@@ -462,10 +622,67 @@ theorem noop_ok (n n' : Node) (s : RState) (g : Ghost) (rp : Reply)
   exact ⟨by rw [h1]; exact hS.1, by rw [h2]; exact hS.2.1, by rw [h3]; exact hS.2.2⟩
 
 theorem step_ok (n : Node) (s : RState) (g : Ghost) (e : Event)
-    (hS : Sync n s) (hwf : WF n.log) (hsat : Sat s g) (he : NoSnap e) : StepOk s g (step n e) := by
+    (hS : Sync n s) (hwf : WF n.log) (hsat : Sat s g) : StepOk s g (step n e) := by
   have hP := P_of_sync hS hwf hsat
   cases e with
-  | installSnapshot a b c => exact absurd he (by simp [NoSnap])
+  | installSnapshot li lt ents =>
+    simp only [step]
+    cases hlast : (mkEntries 0 ents).getLast? with
+    | none => exact noop_ok n n s g _ hS hwf hsat rfl rfl rfl
+    | some last =>
+      dsimp only
+      split
+      · exact noop_ok n n s g _ hS hwf hsat rfl rfl rfl
+      · split
+        · exact noop_ok n n s g _ hS hwf hsat rfl rfl rfl
+        · obtain ⟨hc1, hg1, hS1, hsat1, hlog1, _⟩ := preHigher_ok n s g lt n.role hS hwf hsat
+          have hwf1 : WF (preHigher n lt n.role).2.log := by rw [hlog1]; exact hwf
+          generalize hn1 : (preHigher n lt n.role).2 = n1 at *
+          generalize hm1 : (preHigher n lt n.role).1 = m1 at *
+          have hsnapwf := mkEntries_wf 0 ents
+          have hlidx : last.index = (mkEntries 0 ents).length := by
+            have := wf_getLast hsnapwf hlast; omega
+          generalize hsnap : mkEntries 0 ents = snap at *
+          have hL : LoopInv n1.log (microAllS s m1) g := ⟨hwf1, hS1.2.2, hsat1⟩
+          obtain ⟨o, htk⟩ := snapLoop_ok hL snap 0 hsnapwf (Nat.zero_le _)
+          generalize hR : (snap.map fun e => WalEntry.logEntryFull e.index e.term (encEntry e)) = R at *
+          generalize hLL : overwriteAll n1.log snap = L at *
+          obtain ⟨ochain, oinv, oterm, ovote⟩ := o
+          have e1 : microAllS s (m1 ++ R.map Micro.wal) = microAllS (microAllS s m1) (R.map Micro.wal) := by
+            simp [microAllS, List.foldl_append]
+          have e2 : microAllG g (m1 ++ R.map Micro.wal) = microAllG g (R.map Micro.wal) := by
+            have : microAllG g (m1 ++ R.map Micro.wal) = microAllG (microAllG g m1) (R.map Micro.wal) := by
+              simp [microAllG, List.foldl_append]
+            rw [this, hg1]
+          have e3 : microAllS s (m1 ++ R.map Micro.wal ++ [Micro.wal (.logTruncate (last.index + 1)),
+              .ackTerm n1.term, .ackLog snap])
+              = applyEntry (microAllS (microAllS s m1) (R.map Micro.wal)) (.logTruncate (last.index + 1)) := by
+            simp [microAllS, List.foldl_append, microS]
+          generalize hs2 : microAllS (microAllS s m1) (R.map Micro.wal) = s2 at *
+          generalize hg2 : microAllG g (R.map Micro.wal) = g2 at *
+          have ht := truncate_step oinv (last.index + 1)
+          have hLt : L.take (last.index + 1 - 1) = snap := by
+            have : last.index + 1 - 1 = 0 + snap.length := by omega
+            rw [this, htk]; simp
+          rw [hLt] at ht
+          have hP3 := loopInv_P ht
+          have hterm3 : n1.term = (applyEntry s2 (.logTruncate (last.index + 1))).term := by
+            simp only [applyEntry]; rw [oterm]; exact hS1.1
+          have hvote3 : n1.votedFor = (applyEntry s2 (.logTruncate (last.index + 1))).votedFor := by
+            simp only [applyEntry]; rw [ovote]; exact hS1.2.1
+          have hP4 := P_ackTerm _ _ n1.term hP3 (by rw [← hterm3]; exact Nat.le_refl _)
+          have htail : Chain s2 g2 [Micro.wal (.logTruncate (last.index + 1)), .ackTerm n1.term, .ackLog snap] := by
+            simp only [Chain, microS]
+            refine ⟨loopInv_P oinv, hP3, hP4, P_ackLog _ _ _ hP4 ?_⟩
+            intro a ha
+            rw [ht.2.1]
+            exact List.mem_map_of_mem ha
+          refine ⟨?_, ?_, ht.1⟩
+          · refine (chain_append _ _).mpr ⟨(chain_append _ _).mpr ⟨hc1, ?_⟩, ?_⟩
+            · rw [hg1]; exact ochain
+            · rw [e1, e2]; exact htail
+          · rw [e3]
+            exact ⟨hterm3, hvote3, ht.2.1⟩
   | startElection =>
     simp only [step]
     have hgt : n.term + 1 > s.term := by rw [← hS.1]; omega
@@ -508,8 +725,9 @@ theorem step_ok (n : Node) (s : RState) (g : Ghost) (e : Event)
           (encEntry ⟨n.log.length + 1, n.term, cmd⟩))).term = s.term := by simp [applyEntry]
       have hvote : (applyEntry s (.logEntryFull (n.log.length + 1) n.term
           (encEntry ⟨n.log.length + 1, n.term, cmd⟩))).votedFor = s.votedFor := by simp [applyEntry]
+      have hg := microG_push hL (n.log.length + 1) n.term (encEntry ⟨n.log.length + 1, n.term, cmd⟩) (by omega)
       refine ⟨⟨hP, ?_⟩, ?_, hp.1⟩
-      · simp only [microS, microG_full]
+      · simp only [microS, hg]
         refine ⟨hP1, ?_⟩
         have hP2 := P_ackTerm _ g n.term hP1 (by rw [hterm, hS.1]; exact Nat.le_refl _)
         refine ⟨hP2, ?_⟩
@@ -616,10 +834,6 @@ end Neumann.RaftWal
 /-! Part 5: executions with any number of crashes; byte cuts are record-level crashes. -/
 namespace Neumann.RaftWal
 
-def NoSnapAct : Act → Prop
-  | .ev e => NoSnap e
-  | .crash e _ => NoSnap e
-
 /-- the invariant of a running (or just restarted) node -/
 def Inv (σ : Sys) : Prop :=
   Sync σ.node (fromEntries σ.dur) ∧ WF σ.node.log ∧ Sat (fromEntries σ.dur) σ.ghost
@@ -634,26 +848,26 @@ theorem inv_init (id : Nat) : Inv (initSys id) := by
   · intro v hv; simp [initSys] at hv
   · intro e he; simp [initSys] at he
 
-theorem inv_execAct (σ : Sys) (a : Act) (h : Inv σ) (ha : NoSnapAct a) : Inv (execAct σ a) := by
+theorem inv_execAct (σ : Sys) (a : Act) (h : Inv σ) : Inv (execAct σ a) := by
   obtain ⟨hS, hwf, hsat⟩ := h
   cases a with
   | ev e =>
-    have o := step_ok σ.node (fromEntries σ.dur) σ.ghost e hS hwf hsat ha
+    have o := step_ok σ.node (fromEntries σ.dur) σ.ghost e hS hwf hsat
     simp only [execAct, Inv, fromEntries_recs]
     exact ⟨o.sync, o.wf, (chain_end o.chain).1⟩
   | crash e k =>
-    have o := step_ok σ.node (fromEntries σ.dur) σ.ghost e hS hwf hsat ha
+    have o := step_ok σ.node (fromEntries σ.dur) σ.ghost e hS hwf hsat
     have hp := chain_take o.chain k
     simp only [execAct, Inv, fromEntries_recs]
     have hr := restart_sync σ.node.id _ hp.2
     exact ⟨hr.1, hr.2, hp.1⟩
 
-theorem inv_exec (σ : Sys) (as : List Act) (h : Inv σ) (ha : ∀ a ∈ as, NoSnapAct a) : Inv (exec σ as) := by
+theorem inv_exec (σ : Sys) (as : List Act) (h : Inv σ) : Inv (exec σ as) := by
   induction as generalizing σ with
   | nil => exact h
   | cons a as ih =>
     simp only [exec, List.foldl_cons]
-    exact ih _ (inv_execAct σ a h (ha a (by simp))) (fun b hb => ha b (by simp [hb]))
+    exact ih _ (inv_execAct σ a h)
 
 /-- the records of a micro prefix are a prefix of the records -/
 theorem recs_take (ms : List Micro) (k : Nat) :
@@ -813,8 +1027,16 @@ theorem step_votes (n : Node) (e : Event) (t c : Nat) (h : Micro.ackVote t c ∈
     simp only [step] at h ⊢
     split at h <;> simp at h
   | installSnapshot a b es =>
-    simp only [step, List.mem_append, List.mem_cons, List.mem_nil_iff, or_false, reduceCtorEq] at h
-    exact absurd h (hno _ _ _ _)
+    simp only [step] at h
+    split at h
+    · simp at h
+    · split at h
+      · simp at h
+      · split at h
+        · simp at h
+        · simp only [List.mem_append, List.mem_map, List.mem_cons, List.mem_nil_iff, or_false, reduceCtorEq,
+            and_false, exists_false] at h
+          exact absurd h (hno _ _ _ _)
   | appendEntries t' l pi pt es =>
     simp only [step] at h
     split at h
@@ -873,9 +1095,9 @@ theorem votes_microAllG (g : Ghost) (ms : List Micro) (v : Nat × Nat) :
         · exact Or.inr h
 
 /-- after a completed handler the announced votes are still one-per-term -/
-theorem votesFn_ev (σ : Sys) (e : Event) (h : Inv σ) (hf : VotesFn σ.ghost.votes) (he : NoSnap e) :
+theorem votesFn_ev (σ : Sys) (e : Event) (h : Inv σ) (hf : VotesFn σ.ghost.votes) :
     VotesFn (execAct σ (.ev e)).ghost.votes := by
-  have hinv' := inv_execAct σ (.ev e) h he
+  have hinv' := inv_execAct σ (.ev e) h
   obtain ⟨hS', _, hsat'⟩ := hinv'
   have key : ∀ w : Nat × Nat, Micro.ackVote w.1 w.2 ∈ (step σ.node e).micros →
       ∀ v ∈ (execAct σ (.ev e)).ghost.votes, v.1 = w.1 → v.2 = w.2 := by
@@ -896,12 +1118,12 @@ theorem votesFn_ev (σ : Sys) (e : Event) (h : Inv σ) (hf : VotesFn σ.ghost.vo
     · exact (key v hvnew w hw hvw.symm).symm
   · exact key w hwnew v hv hvw
 
-theorem votesFn_execAct (σ : Sys) (a : Act) (h : Inv σ) (hf : VotesFn σ.ghost.votes) (ha : NoSnapAct a) :
+theorem votesFn_execAct (σ : Sys) (a : Act) (h : Inv σ) (hf : VotesFn σ.ghost.votes) :
     VotesFn (execAct σ a).ghost.votes := by
   cases a with
-  | ev e => exact votesFn_ev σ e h hf ha
+  | ev e => exact votesFn_ev σ e h hf
   | crash e k =>
-    have hfull := votesFn_ev σ e h hf ha
+    have hfull := votesFn_ev σ e h hf
     have sub : ∀ v ∈ (execAct σ (.crash e k)).ghost.votes, v ∈ (execAct σ (.ev e)).ghost.votes := by
       intro v hv
       have := (votes_microAllG σ.ghost ((step σ.node e).micros.take k) v).mp hv
@@ -912,13 +1134,12 @@ theorem votesFn_execAct (σ : Sys) (a : Act) (h : Inv σ) (hf : VotesFn σ.ghost
     intro v hv w hw hvw
     exact hfull v (sub v hv) w (sub w hw) hvw
 
-theorem votesFn_exec (σ : Sys) (as : List Act) (h : Inv σ) (hf : VotesFn σ.ghost.votes)
-    (ha : ∀ a ∈ as, NoSnapAct a) : VotesFn (exec σ as).ghost.votes := by
+theorem votesFn_exec (σ : Sys) (as : List Act) (h : Inv σ) (hf : VotesFn σ.ghost.votes) :
+    VotesFn (exec σ as).ghost.votes := by
   induction as generalizing σ with
   | nil => exact hf
   | cons a as ih =>
     simp only [exec, List.foldl_cons]
-    exact ih _ (inv_execAct σ a h (ha a (by simp))) (votesFn_execAct σ a h hf (ha a (by simp)))
-      (fun b hb => ha b (by simp [hb]))
+    exact ih _ (inv_execAct σ a h) (votesFn_execAct σ a h hf)
 
 end Neumann.RaftWal
